@@ -82,7 +82,7 @@ Theorem depth_bounded : forall g, guards_cut_all_cycles g = true ->
     (length chain <= depth_bound g l0 l1 l2 l3)%nat.
 Proof.
   intros g Hg l0 l1 l2 l3 chain Hp (H0 & H1 & H2 & H3).
-  unfold guards_cut_all_cycles in Hg. apply andb_true_iff in Hg as [Hr Hc].
+  unfold guards_cut_all_cycles in Hg. apply andb_true_iff in Hg as [Hg _]. apply andb_true_iff in Hg as [Hr Hc].
   pose proof (path_bound g (compute_rank g) Hr chain Hp) as Hb.
   rewrite (guard_count_classes g chain Hc) in Hb.
   unfold depth_bound, longest_unguarded.
@@ -92,8 +92,46 @@ Proof.
   nia.
 Qed.
 
+(* the guard semantics implies the per-class bound that `depth_bounded` asks for *)
+Lemma guards_pass_count : forall g lim k rest below,
+    guards_pass g lim below rest -> (class_count g k below <= lim k)%nat ->
+    (class_count g k (below ++ rest) <= S (lim k))%nat.
+Proof.
+  intros g lim k. induction rest as [|u r IH]; intros below Hp Hb.
+  - rewrite app_nil_r. lia.
+  - cbn [guards_pass] in Hp. destruct Hp as [Hu Hr].
+    assert (Hcc : forall a b, class_count g k (a ++ b) = (class_count g k a + class_count g k b)%nat).
+    { intros a b. unfold class_count. rewrite filter_app, app_length. reflexivity. }
+    destruct r as [|v r'].
+    + rewrite Hcc. unfold class_count at 2. cbn [filter].
+      destruct (match class_of g u with Some c => c =? k | None => false end); cbn [length]; lia.
+    + replace (below ++ u :: v :: r') with ((below ++ [u]) ++ v :: r') by (rewrite <- app_assoc; reflexivity).
+      apply IH; [exact Hr|]. rewrite Hcc. unfold class_count at 2. cbn [filter].
+      destruct (class_of g u) as [c|] eqn:Hc; [|cbn [length]; lia].
+      destruct (c =? k) eqn:Hck; [|cbn [length]; lia].
+      apply N.eqb_eq in Hck; subst c. specialize (Hu ltac:(discriminate) k eq_refl). cbn [length]. lia.
+Qed.
+
+Lemma guards_pass_respects : forall g l0 l1 l2 l3 chain,
+    guards_pass g (lim4 l0 l1 l2 l3) [] chain -> respects g l0 l1 l2 l3 chain.
+Proof.
+  intros g l0 l1 l2 l3 chain H. unfold respects.
+  pose proof (fun k => guards_pass_count g (lim4 l0 l1 l2 l3) k chain [] H) as Hk. cbn [app] in Hk.
+  repeat split; [apply (Hk 0) | apply (Hk 1) | apply (Hk 2) | apply (Hk 3)]; cbn; lia.
+Qed.
+
+(* The theorem without the `respects` hypothesis: what is assumed of a chain is only that the guards behave as
+   guards (a guarded function whose counter is at the limit calls nothing). *)
+Theorem depth_bounded_exec : forall g, guards_cut_all_cycles g = true ->
+  forall l0 l1 l2 l3 chain, is_path g chain = true -> guards_pass g (lim4 l0 l1 l2 l3) [] chain ->
+    (length chain <= depth_bound g l0 l1 l2 l3)%nat.
+Proof.
+  intros g Hg l0 l1 l2 l3 chain Hp Hgp.
+  apply (depth_bounded g Hg l0 l1 l2 l3 chain Hp). apply guards_pass_respects. exact Hgp.
+Qed.
+
 (* the checker does reject: a two-function cycle without guard, and accepts it with one *)
-Example checker_rejects : guards_cut_all_cycles {| cg_adj := [(0, [1]); (1, [0])]; cg_guards := [] |} = false.
+Example checker_rejects : guards_cut_all_cycles {| cg_adj := [(0, [1]); (1, [0])]; cg_guards := []; cg_progs := [] |} = false.
 Proof. vm_compute. reflexivity. Qed.
-Example checker_accepts : guards_cut_all_cycles {| cg_adj := [(0, [1]); (1, [0])]; cg_guards := [(1, 0)] |} = true.
+Example checker_accepts : guards_cut_all_cycles {| cg_adj := [(0, [1]); (1, [0])]; cg_guards := [(1, 3)]; cg_progs := [] |} = true.
 Proof. vm_compute. reflexivity. Qed.
